@@ -209,6 +209,7 @@ enum Case {
     Snippet(usize),
     Prog(u64),
     Decl(u64),
+    Directed(usize),
 }
 
 fn run(ctx: &Ctx) -> Report {
@@ -229,6 +230,10 @@ fn run(ctx: &Ctx) -> Report {
     for i in 0..ctx.tier.pick(1500, 30_000) {
         cases.push(Case::Decl(i));
     }
+    let directed = crate::checks::c01::scoping_programs();
+    for i in 0..directed.len() {
+        cases.push(Case::Directed(i));
+    }
     let seed = ctx.seed;
     let mut report = crate::par::run_cases(ctx, cases.len() as u64, |index, report| {
         let (files, entry, defines, origin, features): (Files, String, Vec<(String, String)>, String, Vec<String>) = match &cases[index as usize] {
@@ -242,6 +247,7 @@ fn run(ctx: &Ctx) -> Report {
                 let p = prog::generate(&mut rng, prog::Config::default());
                 (Files::single("main.rssl", &p.render()), "main.rssl".into(), Vec::new(), format!("gen::prog:{}", i), p.features.iter().map(|f| f.to_string()).collect())
             }
+            Case::Directed(i) => (Files::single("main.rssl", &directed[*i]), "main.rssl".into(), Vec::new(), format!("directed:scoping:{}", i), vec!["directed-scoping".into()]),
             Case::Decl(i) => {
                 let mut rng = Rng::for_case(seed, 0x4002, *i);
                 let d = decl::generate(&mut rng, 10, 3);
